@@ -67,6 +67,13 @@ def func_hash(repo, q):
 def preamble(ctx):
     lines = ["(set-logic ALL)", smt.STR_SIG_U, "(declare-sort Rec 0)", "(declare-sort Conv 0)"]
     lines += list(ctx.sort_decls.values())
+    if getattr(ctx, "need_join_sorted", False):
+        ls = ctx.sort(("list", "str"))
+        lines = [l for l in lines]
+        lines += list(v for k, v in ctx.sort_decls.items() if v not in lines)
+        lines.append(f"(declare-fun join_sorted (Str {ls}) Str)")
+        lines.append(f"(assert (forall ((a {ls}) (b {ls})) (! (=> (and (= (len_{ls} a) (len_{ls} b)) (forall ((i Int)) (=> (and (<= 0 i) (< i (len_{ls} a))) "
+                     f"(= (select (items_{ls} a) i) (select (items_{ls} b) i))))) (= (join_sorted empty a) (join_sorted empty b))) :pattern ((join_sorted empty a) (join_sorted empty b)))))")
     lits = list(ctx.lits.items())
     for s, t in lits:
         lines.append(f"(declare-const {t.s} Str)")
@@ -157,6 +164,8 @@ def gen_contract_vcs(q, carve_outs=()):
             eng.in_spec -= 1
         st = st.assume(Not(t))
     pre = st
+    eng.fn_pre = st0
+    eng.fn_pre_env = dict(binding)
     outs = eng.run_block(fnode.body, st)
     n_paths = 0
     canary_paths = []
@@ -198,6 +207,8 @@ def gen_lemma_vcs(name):
     eng.cur_func_node = lnode
     eng.loop_counter = 0
     eng.module = "api"
+    eng.fn_pre = st0
+    eng.fn_pre_env = dict(binding)
     outs = eng.run_block(lnode.body, st0)
     canary_paths = []
     for s1, o in outs:
